@@ -39,7 +39,9 @@ class BooleanProxy(AnyAtomicType):
     def __new__(cls, value: object) -> bool:  # type: ignore[misc]
         if isinstance(value, bool):
             return value
-        elif isinstance(value, (int, float, Decimal)):
+        elif isinstance(value, int):
+            return bool(value)
+        elif isinstance(value, (float, Decimal)):
             if math.isnan(value):
                 return False
             return bool(value)
